@@ -1,9 +1,9 @@
 (* Property C05 (b): the scenario family "the connection fails while another call begins"
    (engine cutbegin) as paths of the time-abstract model (Model/CallPath.v run_path) over
    BOTH generated tables: the wait sites (Gen/GenWaitSites.v, looked up by function name) and
-   the lock acquisitions of the call path (Gen/GenLockSites.v).  A lock acquisition has no
+   the lock acquisitions of the call path (Gen/GenLockProgs.v).  A lock acquisition has no
    exit of its own; in the model it takes no time iff the lock discipline holds for every
-   lock program of the package (Model/LockProg.v fn_ok over lock_progs: the holders' critical
+   lock program of the package (Model/LockProg.v fn_ok over lockp_progs: the holders' critical
    sections are balanced and contain no blocking statement) and the site is in the table --
    otherwise the goroutine may be blocked for ever.
 
@@ -15,8 +15,8 @@
    Every call has its own deadline (ms after the failure).  Prediction per call:
    [failed; control back by the deadline].  No proofs here. *)
 From Coq Require Import ZArith List Bool.
-From Verif Require Import Base.Wrap Base.Bytes Base.Wire Gen.GenConsts Gen.GenWaitSites Gen.GenLockSites
-  Spec.WaitSpec Spec.LockSpec Model.CallPath Model.CallScen Model.LockProg.
+From Verif Require Import Base.Wrap Base.Bytes Base.Wire Gen.GenConsts Gen.GenWaitSites Gen.GenLockProgs
+  Spec.WaitSpec Spec.LockProgSpec Model.CallPath Model.CallScen Model.LockProg.
 Import ListNotations.
 Local Open Scope Z_scope.
 
@@ -24,12 +24,12 @@ Local Open Scope Z_scope.
 Definition n_newex : list Z := [109; 101; 115; 115; 97; 103; 101; 69; 120; 99; 104; 97; 110; 103; 101; 83; 101; 116; 46; 110; 101; 119; 69; 120; 99; 104; 97; 110; 103; 101].
 Definition n_rmex : list Z := [109; 101; 115; 115; 97; 103; 101; 69; 120; 99; 104; 97; 110; 103; 101; 83; 101; 116; 46; 114; 101; 109; 111; 118; 101; 69; 120; 99; 104; 97; 110; 103; 101].
 
-Definition lock_table_ok : bool := forallb (fn_ok (sem_of lock_mutexes)) lock_progs.
+Definition lock_table_ok : bool := forallb (fn_ok (sem_of lockp_mutexes)) lockp_progs.
 
 (* the acquisition of a plain mutex inside function [name]: passes at once iff the site is in
    the table and the discipline holds; a lock wait offers no exit *)
 Definition lock_in (name : list Z) : pstep :=
-  let known := existsb (fun l => bytes_eqb (ls_fn l) name && site_plainb lock_mutexes l) (lock_sites ++ lock_sites_conn) in
+  let known := existsb (fun l => bytes_eqb (ls_fn l) name && site_plainb lockp_mutexes l) (lockp_sites ++ lockp_sites_conn) in
   mkStep (mkWsite name WLock []) (mkEv None None None) (known && lock_table_ok).
 
 (* the error latch of the call's exchange fires when the failure is delivered (time 0) *)
